@@ -12,6 +12,7 @@ from sqv.api import run_eval, prewarm, CACHED
 
 
 NAMES = ['a', 'b']
+NONE_AT = None          # scope level whose bindings have the value None (a None binding still shadows outer ones)
 
 
 def _mk(bits, depth):
@@ -21,7 +22,7 @@ def _mk(bits, depth):
         sc = {}
         for n in range(2):
             if bits[d * 2 + n]:
-                sc[NAMES[n]] = d * 10 + n
+                sc[NAMES[n]] = None if (NONE_AT is not None and NONE_AT == d) else d * 10 + n
         scopes.append(sc)
     sd = ScopedDict(scopes[0])
     for s in scopes[1:]:
@@ -35,7 +36,10 @@ def sd_get(b0: bool, b1: bool, b2: bool, b3: bool, b4: bool, b5: bool, depth: in
     post: True
     """
     hlib.enter(locals())
+    global NONE_AT
+    NONE_AT = hlib.PARAM.get("none_at") if isinstance(hlib.PARAM, dict) else None
     sd, scopes = _mk([b0, b1, b2, b3, b4, b5], depth)
+    NONE_AT = None
     q = 'zz' if other else ('a' if qa else 'b')
     exp = None
     found = False
@@ -50,7 +54,7 @@ def sd_get(b0: bool, b1: bool, b2: bool, b3: bool, b4: bool, b5: bool, depth: in
     except Exception as e:
         raised = e
     if found:
-        assert raised is None and got == exp, "lookup did not return the innermost binding"
+        assert raised is None and got == exp and (got is None) == (exp is None), "lookup did not return the innermost binding (a None value shadows too)"
     else:
         assert isinstance(raised, KeyError), "lookup of an unbound name must raise KeyError (a LookupError)"
     assert len(sd.scopes) == depth
@@ -191,6 +195,7 @@ if isinstance(hlib.PARAM, dict) and "t" in hlib.PARAM:
     prewarm(TEMPLATES[hlib.PARAM["t"]])
 if isinstance(hlib.PARAM, dict) and "text" in hlib.PARAM:
     prewarm(hlib.PARAM["text"])
+prewarm("len = 7\nlen", "zz = 7\nzz", "len('abc')", "len('abcd')", "zz")
 
 
 def api_scope(hb: bool, hv: int, pv: int, a: int, n: int) -> None:
@@ -267,4 +272,25 @@ def two_evals(hv: int, n: int, first_shadowed: bool) -> None:
             assert out[1] == hv, "host binding does not override the builtin on this call (an earlier call resolved the same call site)"
         else:
             assert out[1] != hv or hv == n, "builtin not used although the host does not bind the name"
+    hlib.done()
+
+
+def no_names_history(a: int, first_assigns_len: bool) -> None:
+    """
+    pre: True
+    post: True
+    """
+    # eval() without a names mapping: its assignments go nowhere; later evals (with or without names) are unaffected
+    hlib.enter(locals())
+    from sqv.api import CACHED as P
+    t1 = "len = a0\nlen" if first_assigns_len else "zz = a0\nzz"
+    try:
+        P.eval(t1.replace('a0', '7'))
+    except Exception:
+        pass
+    out1 = run_eval("len('abc')", None, 100)
+    out2 = run_eval("len('abcd')", {'a': a}, 100)
+    out3 = run_eval("zz", None, 100)
+    assert out1[0] == 'ok' and out1[1] == 3 and out2[0] == 'ok' and out2[1] == 4, "an assignment made by an eval() without names survived into a later eval()"
+    assert out3[0] == 'err', "a variable of an eval() without names is visible to a later eval()"
     hlib.done()
